@@ -410,3 +410,14 @@ W('C04-W-indexed-mask-view-not-translated', 'C04', 'C04.g', (DERIVED_PY, "      
 
 # F42 (a polygon rotated by half a turn kept its vertices) must be reported again if it returns
 W('C08-W-polygon-half-turn-skipped', 'C08', 'C08.k', (ROIPY, "not np.isclose(dtheta % (2 * np.pi), 0.0, atol=1e-9)", "not np.isclose(dtheta % np.pi, 0.0, atol=1e-9)"))
+
+# ------------------------------------------------------------------ round-6 rules: twins that must stay silent, witnesses that must fire
+T('C15-T-closure-exit-elementwise', 'C15', (CH, "        if np.array_equal(new_world, world) and np.array_equal(new_pixel, pixel):\n            return pixel, world\n", "        if (new_world == world).all() and (new_pixel == pixel).all():\n            return new_pixel, new_world\n"))
+W('C15-W-closure-exit-one-mask', 'C15', 'C15.h', (CH, "        if np.array_equal(new_world, world) and np.array_equal(new_pixel, pixel):\n            return pixel, world\n", "        if np.array_equal(new_pixel, pixel):\n            return new_pixel, new_world\n"))
+T('C14-T-view-saved-and-put-back', 'C14', (PARSE_PY, "        cmd = _dereference(self._cmd, self._references)\n\n        scope = vars(env)\n        scope['__view'] = view\n", "        cmd = _dereference(self._cmd, self._references)\n\n        scope = vars(env)\n        outer_view = scope.get('__view')\n        scope['__view'] = view\n"), (PARSE_PY, "        result = eval(cmd, global_variables, locals())  # careful!\n", "        result = eval(cmd, global_variables, locals())  # careful!\n        scope['__view'] = outer_view\n"))
+T('C02-T-coord-sort-explicit-key', 'C02', (STATE, "    coord = [c for c in comps if isinstance(c[1], CoordinateComponent)]\n    coord = [x[0] for x in sorted(coord, key=lambda x: x[1])]\n\n    if getattr(result, 'coords') is not None:", "    coord = [c for c in comps if isinstance(c[1], CoordinateComponent)]\n    coord = [x[0] for x in sorted(coord, key=lambda x: (not x[1].world, x[1].axis))]\n\n    if getattr(result, 'coords') is not None:"))
+T('C03-T-collection-contains-any', 'C03', (LH, "        for link in self:\n            if cid in link:\n                return True\n        return False\n", "        return any(cid in link for link in self._links)\n"))
+T('C08-T-polygon-whole-turn-other-spelling', 'C08', (ROIPY, "not np.isclose(dtheta % (2 * np.pi), 0.0, atol=1e-9)", "not np.isclose(dtheta % (np.pi * 2), 0.0, atol=1e-9)"))
+W('C08-W-polygon-move-in-place', 'C08', 'C08.j', (ROIPY, "        self.vx = list(map(lambda x: x + xdelta, self.vx))\n        self.vy = list(map(lambda y: y + ydelta, self.vy))\n", "        self.vx[:] = list(map(lambda x: x + xdelta, self.vx))\n        self.vy[:] = list(map(lambda y: y + ydelta, self.vy))\n"))
+T('C08-T-polygon-move-comprehension', 'C08', (ROIPY, "        self.vx = list(map(lambda x: x + xdelta, self.vx))\n        self.vy = list(map(lambda y: y + ydelta, self.vy))\n", "        self.vx = [x + xdelta for x in self.vx]\n        self.vy = [y + ydelta for y in self.vy]\n"))
+T('C07-T-priority-none-default', 'C07', ('glue/core/hub.py', "        if not handler:\n            handler = subscriber.notify\n", "        if not handler:\n            handler = subscriber.notify\n        if priority is None:\n            priority = 10\n"))
